@@ -512,8 +512,9 @@ func (r *Resolver) onStructLike(g *Scope, name string, t *parser.Type, v *parser
 		}
 
 		if NeedRedirect(f) {
-			if f.Type.Category.IsBaseType() {
+			if f.Type.Category.IsBaseType() || f.Type.Category.IsEnum() {
 				// a trick to create pointers without temporary variables
+				// (an enum value is a constant too: it has no address)
 				val = fmt.Sprintf("(&struct{x %s}{%s}).x", typ, val)
 			}
 			if !strings.HasPrefix(val, "&") {
